@@ -8,6 +8,9 @@ HERE = os.path.dirname(os.path.dirname(os.path.abspath(__file__)))
 TB = ("TLC 1.8 and the TLA+ specification as written; Amaranth 0.5.10's Python simulator as the "
       "semantics of the elaborated design; the harness's encoding of signals into trace records")
 
+MM = ("TLC 1.8 and the TLA+ specification as written; the harness's logging of calls and query results; "
+      "align_to(0) as a neutral cursor probe")
+
 CHECKS = {
     "C08": dict(
         text=("TLC model-checks specs/WbArbiter_MC.tla (every configuration key, owner and input "
